@@ -432,18 +432,26 @@ package spec
 //@ func (t *SymbolTable) ensureDistinctDefs$1(def *TerminalDef) string
 //@   requires def != nil
 
+// C07: "no start rule" is an error, and that error is reported for nothing else
+//@ spec func hasStartRule(t *SymbolTable) bool = exists p *grammar.Production :: (p in t.productions.table.dom) && p != nil && p.Head == "start"
 //@ func (t *SymbolTable) ensureStartSymbol() error
 //@   requires tableOK(t)
+//@   assumes @A-KEYS forall p *grammar.Production :: {p in t.productions.table.dom} (p in t.productions.table.dom) ==> p != nil
+//@   callsite AnyMatch assumes @L-CALLBACK forall p *grammar.Production :: {pred2(box(arg0), box(p))} p != nil ==> pred2(box(arg0), box(p)) == (p.Head == "start")
 //@   ensures result == nil || !typeis(result, "*errors.MultiError")
+//@   ensures @no-start-rule-is-an-error !hasStartRule(t) ==> result != nil
+//@   ensures @error-only-without-start-rule result != nil ==> !hasStartRule(t)
 
 //@ func (t *SymbolTable) ensureStartSymbol$1(p *grammar.Production, e *productionEntry) bool
 //@   requires p != nil
+//@   ensures @is-a-start-rule result == (p.Head == "start")
 
 //@ func (t *SymbolTable) Verify() error
 //@   requires tableOK(t)
 //@   ensures errOK(result)
 //@   ensures @single-defs result == nil ==> singleDefs(t)
 //@   ensures @distinct-values result == nil ==> !sameValue(t)
+//@   ensures @has-start-rule result == nil ==> hasStartRule(t)
 
 // defsSorted(a): a is in the canonical order of definitions (A-SORT: what sort.Quick establishes with the comparator
 // Definitions$1, which looks at kind, name length and name only - never at positions)
